@@ -41,8 +41,19 @@ inductive Sig | int | term
 /-- What `signal(2)` means on the platform: `bsd` (glibc): the handler stays installed while and
     after it runs; `sysv`: the disposition is reset to the default action when the handler is entered
     (this is why `HandleSigInt` re-arms itself). -/
-inductive Mode | bsd | sysv
+inductive SigSem | bsd | sysv
   deriving DecidableEq, Repr
+
+/-- The environment of a run: the meaning of `signal(2)` and the state of standard output.  `outOk = false`:
+    `write(1, …)` fails (fd 1 closed, read-only, or the device is full); the handler's message loop then stops
+    (`if (result < 0) break;`) and the handler goes on. -/
+structure Mode where
+  sem : SigSem
+  outOk : Bool
+  deriving DecidableEq, Repr
+
+@[reducible] def Mode.bsd : Mode := ⟨.bsd, true⟩
+@[reducible] def Mode.sysv : Mode := ⟨.sysv, true⟩
 
 inductive Halt
   | exit1                 -- `_exit(1)` from the handler
@@ -123,20 +134,34 @@ def applyMicro (s : St) : Micro → St
 inductive Obs
   | killed (g : Sig)                 -- the process was terminated by the default action
   | brk (n : Nat) (ok : Bool)        -- `n` bytes of break text written; `ok`: not read from a dead/null string
+  | brkFail                          -- `write(1, …)` failed: nothing written, the loop is left with `break`
   | exit1                            -- `_exit(1)`
   | cb (h d : Nat)                   -- callback `h` invoked with data `d`
   | rearm (g : Sig)                  -- `signal(g, HandleSigInt)` at the end of the handler
   | query (b : Bool)                 -- a work step asked `interrupter()->Stop()`
   deriving DecidableEq, Repr
 
+/-- the message-writing loop of `HandleSigInt`: it only produces output (or fails to); it has no other effect -/
+def writeObs (md : Mode) (s : St) : Obs :=
+  if md.outOk then Obs.brk s.msgSize (s.msgSize == 0 || s.msgPtr == .live) else Obs.brkFail
+
+/-- observations of the message-writing loop -/
+def Obs.isWrite : Obs → Bool
+  | .brk _ _ => true
+  | .brkFail => true
+  | _ => false
+
+/-- everything observed except the output of the message-writing loop -/
+def nonWrite (l : List Obs) : List Obs := l.filter (fun o => !o.isWrite)
+
 /-- one asynchronous delivery of signal `g` -/
 def deliver (md : Mode) (s : St) (g : Sig) : St × List Obs :=
   if s.disp g = false then ({ s with halted := some (.killed g) }, [.killed g])
   else
-    let s1 := match md with
+    let s1 := match md.sem with
       | .bsd => s
       | .sysv => s.setDisp g false
-    let w := Obs.brk s1.msgSize (s1.msgSize == 0 || s1.msgPtr == .live)
+    let w := writeObs md s1
     if s1.stop > 1 then ({ s1 with halted := some .exit1 }, [w, .exit1])
     else
       let s2 := { s1 with stop := s1.stop + 1 }
